@@ -12,8 +12,13 @@ import struct
 from vlib import e2e, engine, gen, netsynth as ns, outparse, scene
 
 
-def junk_block(rng, e):
-    k = rng.choice(["nrb", "isb", "custom", "custom-nocopy", "unknown"])
+def junk_block(rng, e, allow_idb=True):
+    # (an interface description in front of the packets' own would renumber the interfaces: only behind it)
+    k = rng.choice(["nrb", "isb", "custom", "custom-nocopy", "unknown"] + (["idb-unused"] if allow_idb else []))
+    if k == "idb-unused":
+        # a second interface no packet refers to, with its own resolution and offset: unrelated to the packets of interface 0
+        opts = ns._opt(2, b"lo", e) + ns._opt(9, bytes([rng.choice([3, 9, 0x80 | 10])]), e) + (ns._opt(14, struct.pack(e + "q", 7200), e) if rng.random() < 0.5 else b"") + ns._opt(0, b"", e)
+        return (1, struct.pack(e + "HHI", rng.choice([1, 113]), 0, rng.choice([96, 65535])) + opts)
     if k == "nrb":
         name = b"host%d.example\x00" % rng.randrange(100)
         rec = struct.pack(e + "HH", 1, 4 + len(name)) + bytes([10, 0, 0, rng.randrange(1, 255)]) + name
@@ -54,7 +59,7 @@ def containers(rng, pk, grid, thorough):
         out.append((f"pcapng-{tag}-tsoffset", ns.pcapng(pk, le=le, tsoffset=off), False))
         out.append((f"pcapng-{tag}-tsresol9-tsoffset-junk", ns.pcapng(with_junk(rng, pk, e, 3), le=le, tsresol=9, tsoffset=off), False))
         out.append((f"pcapng-{tag}-obsolete-packet-blocks", ns.pcapng(pk, le=le, obsolete_pb=rng.choice([0.3, 1.0]), tsresol=rng.choice([None, 9])), False))
-        out.append((f"pcapng-{tag}-blocks-before-idb", ns.pcapng(pk, le=le, pre_idb=[("raw",) + junk_block(rng, e) for _ in range(rng.randrange(1, 4))]), False))
+        out.append((f"pcapng-{tag}-blocks-before-idb", ns.pcapng(pk, le=le, pre_idb=[("raw",) + junk_block(rng, e, allow_idb=False) for _ in range(rng.randrange(1, 4))]), False))
         out.append((f"pcapng-{tag}-tsoffset-then-tsresol9", ns.pcapng(pk, le=le, tsresol=9, tsoffset=off, offset_first=True), False))
         out.append((f"pcapng-{tag}-extra-options", ns.pcapng(pk, le=le, tsresol=rng.choice([None, 6, 9]), tsoffset=rng.choice([None, off]), offset_first=rng.random() < 0.5,
                                                              extra_opts=True, epb_opts=True), False))
